@@ -284,10 +284,19 @@ pub struct CapturePrinter {
     pub lines: Vec<String>,
     /// optional: clear this flag after `after` printed lines (interrupt inside printing)
     pub interrupt: Option<(usize, Arc<AtomicBool>)>,
+    /// the caller's running flag, looked at (never written) at every printed line: index of the first line printed
+    /// while the flag was false
+    pub watch: Option<Arc<AtomicBool>>,
+    pub flag_false_at: Option<usize>,
 }
 
 impl Printer for CapturePrinter {
     fn println(&mut self, line: &str) {
+        if let Some(w) = &self.watch {
+            if self.flag_false_at.is_none() && !w.load(Ordering::SeqCst) {
+                self.flag_false_at = Some(self.lines.len());
+            }
+        }
         self.lines.push(line.to_string());
         if let Some((after, flag)) = &self.interrupt {
             if self.lines.len() == *after {
@@ -337,6 +346,9 @@ pub fn tmp_dir() -> String {
 
 #[derive(Clone, Debug)]
 pub struct FileRun {
+    /// the caller's running flag was false while line i was printed (first such i) / after execute() returned
+    pub flag_false_at: Option<usize>,
+    pub flag_after: bool,
     pub printed: Vec<String>,
     pub total_lines: u64,
     pub total_result_rows: u64,
@@ -371,11 +383,13 @@ pub fn run_files(tables: &Tables, stmt: &Statement, files: &[&[u8]], opts: FileR
 
 pub fn run_opened_files(tables: &Tables, stmt: &Statement, files: Vec<File>, opts: FileRunOpts) -> Outcome<FileRun> {
     let r = catch(|| {
-        let printer = CapturePrinter { lines: vec![], interrupt: opts.interrupt_after_printed.map(|n| (n, opts.running.clone())) };
+        let printer = CapturePrinter { lines: vec![], interrupt: opts.interrupt_after_printed.map(|n| (n, opts.running.clone())), watch: Some(opts.running.clone()), flag_false_at: None };
         let display = DisplayOptions { output_format: opts.format.clone(), single_result: opts.single_result, print_result: opts.print_result };
         let mut ex = FileExecutor::with_output_printer(opts.running.clone(), files, display, printer, ExecutionEngine::new(tables, stmt)).expect("executor");
         let res = ex.execute().map_err(|e| format!("{}", e));
         FileRun {
+            flag_false_at: ex.output_printer().printer().flag_false_at,
+            flag_after: opts.running.load(Ordering::SeqCst),
             printed: ex.output_printer().printer().lines.clone(),
             total_lines: ex.statistics().total_lines,
             total_result_rows: ex.statistics().total_result_rows,
